@@ -7,6 +7,8 @@ package main
 import (
 	"flag"
 	"fmt"
+	"github.com/itchio/lake"
+	"github.com/itchio/lake/tlc"
 	"math/rand"
 	"os"
 	"path/filepath"
@@ -171,7 +173,7 @@ func cmdC07(args []string) error {
 		}
 		line := c07Line{Case: k, Desc: desc, Parts: op.Partitions, Algo: c.a, Q: c.q, OutAlgo: oc.a, OutQ: oc.q, SizeLimit: op.SizeLimit,
 			Params: fmt.Sprintf("partitions=%d conc=%d forcemapall=%v sizelimit=%d", op.Partitions, op.Concurrency, op.ForceMapAll, op.SizeLimit),
-			Msgs: []opFact{}, Mapped: []int64{}, New: snapList(new.snapshot()), FreshOut: []string{}, OverOut: []string{}, PlainOut: []string{},
+			Msgs:   []opFact{}, Mapped: []int64{}, New: snapList(new.snapshot()), FreshOut: []string{}, OverOut: []string{}, PlainOut: []string{},
 			TSizes: []int64{}, SSizes: []int64{}, TPaths: []string{}, SPaths: []string{}}
 		writeMarker(*marker, fmt.Sprintf("{\"id\":%d,\"desc\":%q,\"params\":%q}", k, desc, line.Params))
 		dr, err := realDiffDirs(oldDir, newDir, compressionOf(c.a, c.q))
@@ -244,7 +246,13 @@ func cmdC07(args []string) error {
 		}
 		// optimized patch, fresh
 		fo := filepath.Join(root, "fresh-out")
-		if ar := realApplyPatch(opt, applyOpts{Bowl: "fresh", OldDir: oldDir, OutDir: fo}); ar.Err != nil {
+		fao := applyOpts{Bowl: "fresh", OldDir: oldDir, OutDir: fo}
+		if k%4 == 3 {
+			// the old build served by readers that return their last bytes together with io.EOF (bsdiff's read cache and
+			// the block-range copies see it)
+			fao.WrapPool = func(p lake.Pool, _ *tlc.Container) lake.Pool { return &eofPool{Pool: p} }
+		}
+		if ar := realApplyPatch(opt, fao); ar.Err != nil {
 			line.FreshErr = ar.Err.Error()
 		}
 		if s, err := snapshot(fo); err == nil {
